@@ -1,5 +1,173 @@
-//! Scheduled multi-threaded executions against the instrumented DashMap (C09, C10, C12).
-pub fn main(_args: &[String]) {
-    eprintln!("conc: not built yet");
-    std::process::exit(2);
+//! Scheduled multi-threaded executions and lock tracing against the instrumented DashMap
+//! (C09, C10, C12).  Cases are executed one at a time (the scheduler state is global); the Python
+//! side runs several harness processes in parallel.
+//!
+//!   plsverif conc <cases.ndjson>
+//!
+//! case = {"id", "one_shard": bool, "mode": "sched"|"trace",
+//!         "pre": [ops], "threads": [[ops], ..], "schedule": [tid..], "post": [ops], "log": bool}
+use crate::ops;
+use dashmap::verif;
+use pytest_language_server::FixtureDatabase;
+use serde_json::{json, Value};
+use std::collections::BTreeSet;
+use std::io::{BufRead, Write};
+use std::sync::Arc;
+
+fn register(db: &FixtureDatabase) {
+    db.definitions.verif_register("definitions");
+    db.file_definitions.verif_register("file_definitions");
+    db.usages.verif_register("usages");
+    db.usage_by_fixture.verif_register("usage_by_fixture");
+    db.file_cache.verif_register("file_cache");
+    db.undeclared_fixtures.verif_register("undeclared_fixtures");
+    db.imports.verif_register("imports");
+    db.canonical_path_cache.verif_register("canonical_path_cache");
+    db.line_index_cache.verif_register("line_index_cache");
+    db.ast_cache.verif_register("ast_cache");
+    db.cycle_cache.verif_register("cycle_cache");
+    db.available_fixtures_cache.verif_register("available_fixtures_cache");
+    db.imported_fixtures_cache.verif_register("imported_fixtures_cache");
+    db.plugin_fixture_files.verif_register("plugin_fixture_files");
+}
+
+fn run_ops(db: &FixtureDatabase, list: &[Value]) -> Vec<Value> {
+    let mut out = Vec::new();
+    for op in list {
+        let r = std::panic::catch_unwind(std::panic::AssertUnwindSafe(|| ops::exec_op(db, op)));
+        match r {
+            Ok(v) => out.push(v),
+            Err(e) => {
+                let msg = e
+                    .downcast_ref::<&str>()
+                    .map(|s| s.to_string())
+                    .or_else(|| e.downcast_ref::<String>().cloned())
+                    .unwrap_or_else(|| "<panic>".to_string());
+                let loc = ops::LAST_PANIC_LOC.with(|c| c.borrow().clone());
+                out.push(json!({"panic": msg, "at": loc}));
+                if msg.contains("VERIF-DEADLOCK-UNWIND") {
+                    break;
+                }
+            }
+        }
+    }
+    out
+}
+
+fn arr(v: &Value, k: &str) -> Vec<Value> {
+    v.get(k).and_then(|x| x.as_array()).cloned().unwrap_or_default()
+}
+
+/// nesting templates: (set of held (map, mode)) -> requested (map, mode), from the acquire log
+fn templates(log: &[verif::Event]) -> Vec<Value> {
+    use std::collections::HashMap;
+    let mut held: HashMap<u32, Vec<(String, u32, bool)>> = HashMap::new();
+    let mut out: BTreeSet<String> = BTreeSet::new();
+    for e in log {
+        let h = held.entry(e.thread).or_default();
+        match e.what {
+            "acq" => {
+                if !h.is_empty() {
+                    let hs: BTreeSet<String> = h
+                        .iter()
+                        .map(|(m, _, w)| format!("{}:{}", m, if *w { "W" } else { "R" }))
+                        .collect();
+                    let same_shard = h.iter().any(|(m, s, _)| *m == e.map && *s == e.shard);
+                    out.insert(
+                        json!({"held": hs, "req": format!("{}:{}", e.map, if e.write { "W" } else { "R" }),
+                               "same_shard_seen": same_shard})
+                        .to_string(),
+                    );
+                }
+                h.push((e.map.clone(), e.shard, e.write));
+            }
+            "rel" => {
+                if let Some(pos) = h.iter().rposition(|(m, s, w)| *m == e.map && *s == e.shard && *w == e.write) {
+                    h.remove(pos);
+                }
+            }
+            _ => {}
+        }
+    }
+    out.into_iter().map(|s| serde_json::from_str(&s).unwrap()).collect()
+}
+
+fn event_json(e: &verif::Event) -> Value {
+    json!({"t": e.thread, "seq": e.seq, "map": e.map, "shard": e.shard,
+           "mode": if e.write { "W" } else { "R" }, "ph": e.what, "note": e.note})
+}
+
+pub fn main(args: &[String]) {
+    let path = args.first().expect("cases file");
+    let reader = std::io::BufReader::new(std::fs::File::open(path).expect("open cases"));
+    let out = std::io::stdout();
+    let mut out = std::io::BufWriter::new(out.lock());
+    verif::set_shard_amount(2);
+    for line in reader.lines() {
+        let line = line.expect("read");
+        if line.trim().is_empty() {
+            continue;
+        }
+        let case: Value = serde_json::from_str(&line).expect("case json");
+        let sched = case.get("mode").and_then(|m| m.as_str()).unwrap_or("sched") == "sched";
+        let one_shard = case.get("one_shard").and_then(|b| b.as_bool()).unwrap_or(false);
+        verif::reset();
+        verif::set_one_shard(one_shard);
+        verif::set_mode(if sched { verif::MODE_SCHED } else { verif::MODE_TRACE });
+        verif::set_thread(0);
+        verif::set_yield_maps(
+            arr(&case, "yield_maps").iter().filter_map(|x| x.as_str()).map(|x| x.to_string()).collect(),
+        );
+        let db = Arc::new(FixtureDatabase::new());
+        register(&db);
+        let pre = run_ops(&db, &arr(&case, "pre"));
+        let _ = verif::take_log();
+        let threads = arr(&case, "threads");
+        let schedule: Vec<u32> = arr(&case, "schedule").iter().filter_map(|x| x.as_u64()).map(|x| x as u32).collect();
+        let results: Arc<std::sync::Mutex<Vec<Vec<Value>>>> =
+            Arc::new(std::sync::Mutex::new(vec![Vec::new(); threads.len()]));
+        let (granted, deadlock, panics) = if sched && !threads.is_empty() {
+            let mut bodies: Vec<Box<dyn FnOnce() + Send>> = Vec::new();
+            for (i, t) in threads.iter().enumerate() {
+                let db = Arc::clone(&db);
+                let list = t.as_array().cloned().unwrap_or_default();
+                let results = Arc::clone(&results);
+                bodies.push(Box::new(move || {
+                    let r = run_ops(&db, &list);
+                    results.lock().unwrap()[i] = r;
+                }));
+            }
+            verif::run_scheduled(schedule, bodies)
+        } else {
+            // trace mode: the thread programs run one after another on this thread
+            for (i, t) in threads.iter().enumerate() {
+                verif::set_thread((i + 1) as u32);
+                let list = t.as_array().cloned().unwrap_or_default();
+                let r = run_ops(&db, &list);
+                results.lock().unwrap()[i] = r;
+            }
+            verif::set_thread(0);
+            (Vec::new(), verif::deadlocked(), Vec::new())
+        };
+        let log = verif::take_log();
+        verif::set_mode(verif::MODE_OFF);
+        // NB: the placement mode must stay as it was while this database lives (keys were stored
+        // under it); it is reset by the next case before a new database is created
+        let post = run_ops(&db, &arr(&case, "post"));
+        drop(db);
+        verif::set_one_shard(false);
+        let hazards: Vec<Value> = log.iter().filter(|e| e.what == "hazard" || e.what == "deadlock").map(event_json).collect();
+        let results_v = results.lock().unwrap().clone();
+        let mut res = json!({
+            "id": case.get("id").cloned().unwrap_or(Value::Null),
+            "granted": granted, "deadlock": deadlock || verif::deadlocked(),
+            "panics": panics, "pre": pre, "threads": results_v, "post": post,
+            "hazards": hazards, "templates": templates(&log), "acquisitions": log.iter().filter(|e| e.what == "acq").count(),
+        });
+        if case.get("log").and_then(|b| b.as_bool()).unwrap_or(false) {
+            res["log"] = Value::Array(log.iter().map(event_json).collect());
+        }
+        writeln!(out, "{}", res).unwrap();
+    }
+    out.flush().unwrap();
 }
